@@ -213,6 +213,7 @@ def run(ctx, rep):
                 rep.ob("C06.failure-equivalence", "folder %s: float division #%d is guarded by a zero test" % (op, i), verdict, str(info), c.span,
                        fn=g.path, key="C06.failure-equivalence|%s|fpzero#%d" % (op, i))
     fold_width(F, rep)
+    literal_kinds(F, rep)
 
 
 def _leaves(fn, local, through, depth=0, seen=None):
@@ -246,6 +247,46 @@ def _helper_returns_evaluations(F, call, through):
         return False
     lv = _leaves(g, 0, through)
     return bool(lv) and all(x[0] == "call" and x[1].endswith("::try_constexpr_eval") for x in lv)
+
+
+def literal_kinds(F, rep, rule="C06.literal-kind"):
+    """An unsuffixed integer literal is an int when it fits i32 and a bigint otherwise - wherever it stands.  The folder used to be the only
+    place that re-labelled it (Number::try_constexpr_eval), so a literal operand that is not folded (`3000000000 + y`) was emitted as
+    `make_int 3000000000`, which the interpreter refuses.  Structural part: where the parser builds Numbers from source text
+    (number_from_string and its helpers), a Number::Integer is built only behind the Ok edge of a parse of that text as i32."""
+    nf = F.fn("compiler::ast::number::number_from_string")
+    if nf is None:
+        raise AnchorMissing("number_from_string")
+    bodies = [nf]
+    for c in nf.calls():
+        g = F.fn(c.callee())
+        if g is not None and g.path.startswith("compiler::ast::number::") and g not in bodies:
+            bodies.append(g)
+    n = 0
+    for g in bodies:
+        parses = [c for c in g.calls() if c.matches("core::str::<impl str>::parse") and (c.t["func"].get("ga") or [None])[0] == "i32"]
+        seeds = []
+        for c in g.calls():
+            if c.matches(("core::result::Result::is_ok", "core::result::Result::is_err")) and c.args:
+                oc = rules.origin_calls(g, op_local(c.args[0]), transparent=rules.TRANSPARENT) if op_local(c.args[0]) is not None else []
+                if any(x in parses for x in oc):
+                    seeds.append((c.dst["l"], c.matches("core::result::Result::is_ok")))
+        for bi, si, dst, rv, st in g.assigns():
+            if not ("agg" in rv and str(rv["agg"].get("adt", "")).endswith("number::Number") and rv["agg"].get("v") == "Integer"):
+                continue
+            n += 1
+            v = "violated"
+            info = "no parse::<i32> of the text decides the label"
+            for l, is_ok in seeds:
+                vv, ii = rules.guarded_by_bool(g, [bi], [l], want=is_ok)
+                if vv == "ok":
+                    v, info = "ok", ""
+                elif v != "ok":
+                    info = str(ii)
+            rep.ob(rule, "%s labels source digits `int` only if they fit i32" % mir.short(g.path), v,
+                   "" if v == "ok" else info + ": `3000000000 + y` is emitted as `make_int 3000000000` (refused at run time) and `typeof 3000000000` says int",
+                   st.get("sp"), fn=g.path, key="%s|%s#%d" % (rule, mir.short(g.path), n))
+    rep.floor(rule + " int labels given to source digits", n, 1)
 
 
 WIDTH_OF_KIND = {"Integer": "i32", "BigInt": "i128", "Byte": "u8", "Float": "f64"}
